@@ -151,9 +151,10 @@ pub fn with_outer(cx: &Ctx, a: &Access, mut f: impl FnMut()) {
     }
 }
 
-fn any_access(max_kind: u8) -> Access {
+fn any_access(kinds: u8) -> Access {
+    // `kinds`: bit k set = kind k allowed
     let kind = sym::any_u8();
-    sym::assume(kind <= max_kind);
+    sym::assume(kind <= K_FINDD && (kinds >> kind) & 1 == 1);
     Access { kind, mutable: sym::any_bool(), other_arch: sym::any_bool(), second_col: sym::any_bool(), second_entity: sym::any_bool() }
 }
 
@@ -179,18 +180,26 @@ fn ctx<'a>(world: &'a W3, mt: &'a Model<2>, mo: &'a Model<2>) -> Ctx<'a> {
 /// A concrete outer access (kind, mutability, archetype, column; entity symbolic) held open
 /// while an ARBITRARY non-conflicting inner access is made: it succeeds and both sides observe
 /// the right values. The solver decides all inner cells at once.
+pub const ALL_BUT_FINDD: u8 = 0b01_1111;
+pub const SLICE_AND_FINDD: u8 = 0b10_0001;
+
 pub fn must_not_panic(okind: u8, omut: bool, oarch: bool, ocol: bool) {
+    must_not_panic_k(okind, omut, oarch, ocol, ALL_BUT_FINDD)
+}
+
+pub fn must_not_panic_k(okind: u8, omut: bool, oarch: bool, ocol: bool, inner_kinds: u8) {
     let (world, mt, mo) = world2();
     let cx = ctx(&world, &mt, &mo);
     let o = Access { kind: okind, mutable: omut, other_arch: oarch, second_col: ocol, second_entity: sym::any_bool() };
-    let i = any_access(K_FINDD);
+    let i = any_access(inner_kinds);
     sym::assume(!conflict(&o, &i));
     with_outer(&cx, &o, || inner(&cx, &i));
     cover!(omut || (i.kind != K_CLONE && o.other_arch == i.other_arch && o.second_col == i.second_col && !i.mutable), "shared + shared on the same column");
     cover!(!omut || (i.kind != K_CLONE && o.other_arch == i.other_arch && o.second_col != i.second_col && i.mutable), "mutable + mutable on different columns of one archetype");
     cover!(!omut || ocol || (i.kind != K_CLONE && o.other_arch != i.other_arch && !i.second_col && i.mutable), "mutable + mutable on the same component TYPE in different archetypes");
-    cover!(omut || i.kind == K_CLONE, "clone while a column is borrowed shared");
-    cover!(i.kind == K_ITER && i.mutable, "inner ecs_iter_borrow! with a mutable parameter");
+    cover!(omut || inner_kinds != ALL_BUT_FINDD || i.kind == K_CLONE, "clone while a column is borrowed shared");
+    cover!(inner_kinds != ALL_BUT_FINDD || (i.kind == K_ITER && i.mutable), "inner ecs_iter_borrow! with a mutable parameter");
+    cover!(inner_kinds == ALL_BUT_FINDD || (i.kind == K_FINDD && !i.mutable && o.other_arch == i.other_arch && o.second_col == i.second_col) || omut, "shared ecs_find_borrow! by a direct key next to a shared access to the same column");
     std::mem::forget(world);
 }
 
@@ -215,7 +224,7 @@ pub fn released_after(okind: u8, omut: bool, oarch: bool, ocol: bool) {
     let (world, mt, mo) = world2();
     let cx = ctx(&world, &mt, &mo);
     let o = Access { kind: okind, mutable: omut, other_arch: oarch, second_col: ocol, second_entity: sym::any_bool() };
-    let i = any_access(K_FINDD);
+    let i = any_access(ALL_BUT_FINDD);
     sym::assume(conflict(&o, &i));
     with_outer(&cx, &o, || {});
     inner(&cx, &i);
@@ -254,9 +263,22 @@ ok_cells! {
     c11_ok_iter_m_tri_p: K_ITER, true, false, false;
     c11_ok_iter_m_other_q: K_ITER, true, true, true;
     c11_ok_iter_s_other_p: K_ITER, false, true, false;
-    c11_ok_findd_s_tri_p: K_FINDD, false, false, false;
-    c11_ok_findd_m_other_q: K_FINDD, true, true, true;
-    c11_ok_findd_s_other_p: K_FINDD, false, true, false;
+}
+
+macro_rules! ok_cells_k {
+    ($( $name:ident: $ok:expr, $om:expr, $oa:expr, $sc:expr, $k:expr; )*) => {
+        $( harness! { fn $name() unwind(4) { must_not_panic_k($ok, $om, $oa, $sc, $k) } } )*
+    };
+}
+// direct-key lookups: outer ecs_find_borrow! keyed by EntityDirect<ArchTri> / EntityDirectAny with inner slice
+// or direct-key accesses; and inner direct-key lookups under the other kinds of outer access
+ok_cells_k! {
+    c11_ok_findd_s_tri_p: K_FINDD, false, false, false, SLICE_AND_FINDD;
+    c11_ok_findd_m_other_q: K_FINDD, true, true, true, SLICE_AND_FINDD;
+    c11_ok_findd_s_other_p: K_FINDD, false, true, false, SLICE_AND_FINDD;
+    c11_ok_slice_s_tri_p_findd: K_SLICE, false, false, false, SLICE_AND_FINDD;
+    c11_ok_iter_s_other_p_findd: K_ITER, false, true, false, SLICE_AND_FINDD;
+    c11_ok_comp_s_other_p_findd: K_COMP, false, true, false, SLICE_AND_FINDD;
 }
 
 released_cells! {
